@@ -1,6 +1,9 @@
 package props
 
 import (
+	"net/http"
+	"net/http/httptest"
+	"net/url"
 	"strings"
 
 	"github.com/go-openapi/runtime/middleware/denco"
@@ -27,7 +30,46 @@ func init() {
 	}})
 }
 
+// c05Mux runs denco.Mux: handlers (method, path) in the given order, one request.
+func c05Mux(in []string) []string {
+	methods, paths := proto.UnL(in[1]), proto.UnL(in[2])
+	method, path := proto.UnB(in[3]), proto.UnB(in[4])
+	if len(methods) != len(paths) {
+		return []string{"INVALID"}
+	}
+	mux := denco.NewMux()
+	hit := ""
+	hs := make([]denco.Handler, len(methods))
+	for i := range methods {
+		i := i
+		hs[i] = mux.Handler(methods[i], paths[i], func(w http.ResponseWriter, r *http.Request, ps denco.Params) {
+			names := make([]string, len(ps))
+			vals := make([]string, len(ps))
+			for j, p := range ps {
+				names[j], vals[j] = p.Name, p.Value
+			}
+			hit = "H " + proto.N(i) + " " + proto.L(names) + " " + proto.L(vals)
+		})
+	}
+	h, err := mux.Build(hs)
+	if err != nil {
+		return []string{"E"}
+	}
+	rec := httptest.NewRecorder()
+	h.ServeHTTP(rec, &http.Request{Method: method, URL: &url.URL{Path: path}})
+	if hit != "" {
+		return strings.Fields(hit)
+	}
+	if rec.Code == http.StatusNotFound {
+		return []string{"N"}
+	}
+	return []string{"STATUS", proto.N(rec.Code)}
+}
+
 func c05Exec(in []string) []string {
+	if in[0] == "M" {
+		return c05Mux(in)
+	}
 	keys := proto.UnL(in[1])
 	path := proto.UnB(in[2])
 	recs := make([]denco.Record, len(keys))
@@ -186,6 +228,26 @@ func c05Gen(r *proto.Rng, n int, tier string, emit func(in ...string)) {
 			keys = append(keys, k)
 		}
 		lk := proto.L(keys)
+		if r.Chance(1, 8) {
+			// the same table behind denco.Mux, with a method per key
+			ms := make([]string, len(keys))
+			for k := range ms {
+				ms[k] = r.Pick("GET", "GET", "POST", "PUT", "get")
+			}
+			for j := 0; j < 3 && i < n; j++ {
+				p := c05Inst(r, keys[r.Intn(len(keys))])
+				if r.Chance(1, 4) {
+					p = "/" + r.Bytes("ab/:", r.Intn(6))
+				}
+				rm := ms[r.Intn(len(ms))]
+				if r.Chance(1, 4) {
+					rm = r.Pick("GET", "POST", "PUT", "get", "HEAD")
+				}
+				emit("M", proto.L(ms), lk, proto.B(rm), proto.B(p))
+				i++
+			}
+			continue
+		}
 		for j := 0; j < 6 && i < n; j++ {
 			var p string
 			switch r.Intn(8) {
